@@ -108,6 +108,11 @@ TSet == /\ IsEv("Set") /\ cfg.mode = "chunk" /\ Tr[l].r \in Runs /\ st[Tr[l].r] 
         /\ cfg' = [cfg EXCEPT !.mtu = Tr[l].mtu, !.align = Tr[l].align]
         /\ UNCHANGED <<in, acc, marks, units, dom, sub, sel, cons, uok, st>>
 
+\* a setting the pipe refuses (alignment >= MTU, a zero): nothing changes - the units that follow are still
+\* judged by the setting that was in force
+TSetRefused == /\ IsEv("SetRefused") /\ cfg.mode = "chunk" /\ Tr[l].r \in Runs /\ st[Tr[l].r] = "run"
+               /\ UNCHANGED <<cfg, in, acc, marks, units, dom, sub, sel, cons, uok, st>>
+
 TFlush == /\ IsEv("Flush") /\ Tr[l].r \in Runs /\ st[Tr[l].r] = "run"
           /\ UNCHANGED <<cfg, in, acc, marks, units, dom, sub, sel, cons, uok, st>>
 
@@ -158,7 +163,7 @@ TStop == /\ Violated # {}
          /\ PrintT(<<"TRACE_VIOLATES", l - 1, Violated>>)
          /\ UNCHANGED vars
 
-TNext == \/ Violated = {} /\ (TReset \/ TIn \/ TUnit \/ TBadUnit \/ TSet \/ TFlush \/ TRel \/ TReleased \/ TTimeout)
+TNext == \/ Violated = {} /\ (TReset \/ TIn \/ TUnit \/ TBadUnit \/ TSet \/ TSetRefused \/ TFlush \/ TRel \/ TReleased \/ TTimeout)
          \/ TStop
 TSpec == TInit /\ [][TNext]_vars
 
